@@ -219,7 +219,13 @@ def grep_forbidden():
 
 # --------------------------------------------------------------------------- correspondence
 
-def run_domain(scratch, harness_bin, driver_bin, domain, seed, tier, replay=None, extra_env=None, timeout=3000):
+def _keep_verdicts(line, keys):
+    """keep the head of an answer line and only the `K=v` verdict tokens named in keys"""
+    toks = line.split()
+    return " ".join(t for t in toks if "=" not in t or t.split("=")[0] in keys or t.startswith("step="))
+
+
+def run_domain(scratch, harness_bin, driver_bin, domain, seed, tier, replay=None, extra_env=None, timeout=3000, verdict_keys=None):
     out = scratch.path("out-%s-%d" % (domain, len(os.listdir(scratch.dir))))
     os.makedirs(out)
     cmd = [harness_bin, domain, "-seed", str(seed), "-tier", tier, "-out", out]
@@ -255,7 +261,11 @@ def run_domain(scratch, harness_bin, driver_bin, domain, seed, tier, replay=None
             domain, len(cases), len(impl), len(model), n))
     mismatches = []
     for i in range(n):
-        if impl[i] != model[i]:
+        a, b = impl[i], model[i]
+        if verdict_keys is not None:
+            # several properties share this domain: each compares its own verdicts (and acceptance)
+            a, b = _keep_verdicts(a, verdict_keys), _keep_verdicts(b, verdict_keys)
+        if a != b:
             mismatches.append({"domain": domain, "index": i, "case_line": cases[i], "case": json.loads(meta[i]),
                                "impl": impl[i], "model": model[i]})
     return stats, mismatches
